@@ -55,7 +55,18 @@ fn a2u(x: u32) -> usize {
 impl<'a> DecModel<'a> {
     pub fn new(prop: &'a str, s: &'a GenStream, mode: Mode, buflen: usize, rep: &'a Report, chunks: &[u32], budgets: &[u32]) -> Self {
         let flags = if s.zlib { F_ZLIB } else { 0 };
-        let reference = run_const(&s.bytes, mode, buflen, flags, usize::MAX, usize::MAX, 0xAA);
+        // the one-call reference run is code under test too: a panic there is a finding, not a harness crash
+        let reference = match guarded(|| run_const(&s.bytes, mode, buflen, flags, usize::MAX, usize::MAX, 0xAA)) {
+            Ok(r) => r,
+            Err(p) => {
+                rep.violation(
+                    &format!("{}/panic", prop),
+                    format!("one-call decode panicked: {} :: {:?} buf={} stream [{}]", p, mode, buflen, s.desc),
+                    json!({"stream_hex": if s.bytes.len() <= 4096 { json!(hex(&s.bytes)) } else { Value::Null }, "stream_desc": s.desc, "zlib": s.zlib, "mode": format!("{:?}", mode), "buflen": buflen, "schedule": [[-1, -1]]}),
+                );
+                DecResult { status: TINFLStatus::Failed, out: vec![], consumed: 0, calls: 0 }
+            }
+        };
         DecModel {
             prop,
             s,
@@ -335,6 +346,10 @@ pub fn big_streams() -> Vec<GenStream> {
     v.extend(streams::stored_edges(Some((7, 1))).into_iter().rev().take(1));
     let codings = [streams::Coding::Fixed];
     v.extend(streams::length_distance_sweeps(None, false, &codings, 5).into_iter().step_by(17));
+    // the same sweeps with 15-bit distance codes (longest bit runs per match), far distance classes
+    let deep = [streams::Coding::Dyn(crate::gen::CodeShape::Flat, crate::gen::CodeShape::ChainDeep(15))];
+    v.extend(streams::length_distance_sweeps(None, false, &deep, 5).into_iter().rev().step_by(9).take(6));
+    v.extend(streams::bushy_deep_streams(None).into_iter().step_by(5));
     v
 }
 
@@ -381,8 +396,8 @@ pub fn run(tier: &str, prop: &str) -> i32 {
         let n_out = {
             let t = ref_inflate(&s.bytes, &Opts::fmt(s.zlib));
             // invalid streams: the crate may produce more than the reference before failing
-            let c = run_const(&s.bytes, Mode::Ring, 32768, if s.zlib { F_ZLIB } else { 0 }, usize::MAX, usize::MAX, 0);
-            t.out.len().max(c.out.len())
+            let c = guarded(|| run_const(&s.bytes, Mode::Ring, 32768, if s.zlib { F_ZLIB } else { 0 }, usize::MAX, usize::MAX, 0)).map(|c| c.out.len()).unwrap_or(0);
+            t.out.len().max(c)
         };
         if s.bytes.len() <= short_limit && n_out <= (if th { 300 } else { 48 }) {
             items.push((i, false, Kind::FullDedup(Mode::Flat, n_out + 4)));
